@@ -189,7 +189,15 @@ func GenSelect(t *rapid.T, kind StoreKind, pairs []Pair, o SelOpts) *Stmt {
 	if o.Limit && rapid.IntRange(0, 2).Draw(t, "limited") == 0 {
 		st.Lim = GenLimit(t, len(pairs))
 	}
+	genSemis(t, st)
 	return st
+}
+
+// genSemis: now and then the statement ends in one or two semicolons.
+func genSemis(t *rapid.T, st *Stmt) {
+	if rapid.IntRange(0, 9).Draw(t, "semis") == 0 {
+		st.Semis = rapid.IntRange(1, 2).Draw(t, "nsemis")
+	}
 }
 
 func max(a, b int) int {
@@ -457,6 +465,7 @@ func GenPut(t *rapid.T, kind StoreKind, pairs []Pair, exotic bool) *Stmt {
 		st.Pairs = append(st.Pairs, [2]*Node{k, v})
 		prevKey = k
 	}
+	genSemis(t, st)
 	return st
 }
 
@@ -471,6 +480,7 @@ func GenRemove(t *rapid.T, kind StoreKind, pairs []Pair, exotic bool) *Stmt {
 			st.Keys = append(st.Keys, kc.GenText(t, rapid.IntRange(0, 2).Draw(t, "removeDepth")))
 		}
 	}
+	genSemis(t, st)
 	return st
 }
 
@@ -480,6 +490,7 @@ func GenDelete(t *rapid.T, kind StoreKind, pairs []Pair, exotic bool) *Stmt {
 	if rapid.IntRange(0, 2).Draw(t, "deleteLimited") == 0 {
 		st.Lim = GenLimit(t, len(pairs))
 	}
+	genSemis(t, st)
 	return st
 }
 
